@@ -98,6 +98,33 @@ func AFVarietyStream(seed int64) []byte {
 	return nil
 }
 
+// PIDClassesStream: payload packets on every class of PID a special case could hang on - the null PID (with
+// payloads that are not the usual 0xFF filler), CAT, TSDT, a DVB SI PID, the top of the range, PID 0 - two
+// packets each with different contents, with and without an adaptation field carrying private data.
+func PIDClassesStream(seed int64) *Stream {
+	var ps []*ref.Pkt
+	next := map[uint16]uint8{}
+	for k, pid := range []uint16{0x1fff, 0x0001, 0x0002, 0x0012, 0x1ffe, 0x0100, 0x1fff} {
+		for j := 0; j < 2; j++ {
+			pl := make([]byte, 184)
+			for i := range pl {
+				pl[i] = byte(0x20 + (i*3+k*17+j*5)%0xc0)
+			}
+			p := &ref.Pkt{PID: pid, HasPL: true, CC: next[pid] & 0xf, Payload: pl}
+			next[pid]++
+			if j == 1 {
+				p.HasAF, p.AF = true, &ref.AF{HasPrivate: true, Private: []byte{byte(k), 0xaa, 0x47, byte(j)}, ESPrio: true}
+				p.Payload = pl[:184-p.AF.Size()]
+			}
+			ps = append(ps, p)
+		}
+	}
+	// a valid PAT at the end so that NextData has something to deliver as well
+	c0 := uint8(9)
+	ps = append(ps, Packetize(PSIUnit(0, 0, [][]byte{SecPAT(modelPAT(1, 0x1000), ref.SecHdr{CNI: true})}, nil), nil, &c0, true)...)
+	return &Stream{Name: "pid-classes", Pkts: ps, Bytes: EncodePkts(ps)}
+}
+
 // c19Streams: the standard streams plus one with adaptation fields of every kind.
 func c19Streams(seed int64) []*Stream { return c19StreamsT(seed, false) }
 
@@ -126,7 +153,7 @@ func c19StreamsT(seed int64, thorough bool) []*Stream {
 		}
 		ss = append(ss, BuildStream("hostile-contents", lists, roundRobin(lists), nil))
 	}
-	ss = append(ss, VersionToggleStream(seed))
+	ss = append(ss, VersionToggleStream(seed), PIDClassesStream(seed))
 	{ // a longer multiplex: PAT, PMT, two PES PIDs with several units, a 2-packet SDT (13 packets)
 		ccs := []uint8{0, 0, 4, 9, 15}
 		pat, pmt, sdt := modelPAT(1, 0x1000), modelPMT(1, 0x100, 2), modelSDT(7)
